@@ -332,6 +332,11 @@ class Program:
             r = [self._inlined(f) for f in r]
         return r
 
+    def view(self, fn):
+        """The function as rules should look at it: itself, or (retry mode) with the selected helpers expanded."""
+        self.touched.add(fn.id)
+        return self._inlined(fn) if self.inline_helpers else fn
+
     def _inlined(self, fn):
         """The view of fn with the currently selected private helpers expanded in place (see inline.py)."""
         ck = (fn.id, self.inline_helpers)
